@@ -1,5 +1,6 @@
 import FimVerif.Model.AMap
 import FimVerif.Generated.StoreConsts
+import FimVerif.Generated.StoreFlow
 /-!
 # Store — the shared in-memory store (`NetworkXGraphStorage` + `NetworkXPropertyGraph`)  (C04/C05)
 
@@ -317,16 +318,32 @@ def graphExists (g : String) (s : Store) : R := (.ok (.bool ((nodesOf s g).lengt
 def checkNodeUnique (g label name : String) (s : Store) : R :=
   (.ok (.bool (((nodesOf s g).filter (fun n => hasAttr propName name n && hasAttr propClass label n)).length = 0)), s)
 
+/-- can the value be a member of a python `set` (lists and dicts cannot) -/
+def hashable : Val → Bool
+  | .pair .. | .json _ => false
+  | _ => true
+
+/-- `_collect_nodeids`: the nodes are walked in order; `KeyError` at a node without `NodeID`, `TypeError`
+    at an unhashable one (a list written by a `combine` policy or by a `NodeID` rewrite) -/
+def collectErr : List (Option Val) → Option Err
+  | [] => none
+  | none :: _ => some .key
+  | some v :: r => if hashable v then collectErr r else some .type_
+
+/-- `set(self.list_all_node_ids())` first, then `_collect_nodeids(other)` -/
+def fmnErr (mine theirs : List (Option Val)) : Option Err :=
+  if mine.any (fun x => match x with | some v => !hashable v | none => false) then some .type_ else collectErr theirs
+
 /-- `find_matching_nodes(other_graph)`: `extract_graph(other)` is `None` for an empty graph, and then
     nothing matches (/repo 0a151d9) -/
 def findMatchingNodes (g other : String) (s : Store) : R :=
   match listAllNodeIds g s with
   | (.error e, _) => (.error e, s)
   | (.ok (.vals mine), _) =>
-    if (nodesOf s other).any (fun n => !AMap.has nodeId n.attrs) then (.error .key, s)
-    else
-      let theirs := (nodesOf s other).map (fun n => AMap.get nodeId n.attrs)
-      (.ok (.vals ((mine.filter (fun x => theirs.contains x)).eraseDups)), s)
+    let theirs := (nodesOf s other).map (fun n => AMap.get nodeId n.attrs)
+    match fmnErr mine theirs with
+    | some e => (.error e, s)
+    | none => (.ok (.vals ((mine.filter (fun x => theirs.contains x)).eraseDups)), s)
   | (.ok _, _) => (.error .runtime, s)
 
 /-! ## `merge_nodes` (`nx.contracted_nodes(G, u, v, copy=False)` + the property policy) -/
@@ -397,7 +414,29 @@ def assertVal (v : Val) (s : Store) (k : R) : R := if v = .none then (.error .as
 
 /-- `importer.delete_all_graphs()` → `storage.del_all_graphs()`: `self.graphs.clear()`; `start_id` is *not*
     reset, so internal ids are never handed out twice -/
-def delAllGraphs (s : Store) : R := (.ok .unit, { s with nodes := [], edges := [] })
+def delAllGraphs (s : Store) : R :=
+  (.ok .unit, { s with nodes := [], edges := [],
+                       nextId := if Gen.StoreFlow.flow.sharedDelAllKeepsCounter then s.nextId else 1 })
+
+/-- the control flow this model mirrors, as the facts `gen/storeflow.py` observes on the code (regenerated on every
+    run into `Generated/StoreFlow.lean`): imports relabel from the counter `start_id`, which advances by the number of
+    imported nodes and is never reset; the disjoint store relabels from 1, keeps one counter per graph id which
+    `del_graph` / `del_all_graphs` leave alone, and regards a graph id as present iff it holds nodes.  The allocator
+    bookkeeping of `del_graph` / `del_all_graphs` is *read* from the generated flags (here and in `Model/DStore.lean`);
+    for the rest `C04.flow_is_modelled` states that the generated facts are the modelled ones. -/
+def modelFlow : Gen.StoreFlow.Flow :=
+  { sharedImportFromCounter := true, sharedCounterAdvancesByLen := true, sharedBlankFromCounter := true,
+    sharedDelGraphKeepsCounter := true, sharedDelAllKeepsCounter := true, disjointImportFromOne := true,
+    disjointCounterAfterImportLenPlusOne := true, disjointBlankFromCounter := true, disjointDelGraphKeepsCounter := true,
+    disjointDelAllKeepsCounters := true, disjointPresentMeansHasNodes := true, disjointDirectImportReplaces := true }
+
+/-- every lookup of the model filters on `GraphID` (`inG g`): `_find_node` (`findNode`), `_find_all_nodes` (`nodesOf`),
+    `node_exists`, the `add_node` guard, the class / type listings, `check_node_unique`, `graph_exists`,
+    `extract_graph`, `del_graph` -/
+def modelFiltered : List (String × Bool) :=
+  [("_find_node", true), ("_find_all_nodes", true), ("node_exists", true), ("add_node", true),
+   ("get_all_nodes_by_class", true), ("get_all_nodes_by_class_and_type", true), ("check_node_unique", true),
+   ("graph_exists", true), ("extract_graph", true), ("del_graph", true)]
 
 /-- edges of an imported graph refer to positions of its node list (an `nx.Graph` always does) -/
 def IGraph.WF (ig : IGraph) : Bool := ig.edges.all (fun e => e.1 < ig.nodes.length && e.2.1 < ig.nodes.length)
